@@ -112,6 +112,7 @@ SPECS = {
 }
 
 _cache = {}
+QUICK_CAP = 8000  # larger than every table: the quick tier runs the complete table of single placements as well
 
 
 def _applicable(base, opname):
@@ -165,7 +166,7 @@ def table(spec_name, mods=None):
 def count(spec_name, tier):
     n = len(table(spec_name))
     if tier == "quick":
-        return min(n, 2500)
+        return min(n, QUICK_CAP)
     return n + 6000  # all single placements + sampled pairs
 
 
@@ -191,7 +192,7 @@ def case(spec_name, seed, i, tier):
     n = len(rows)
     if tier == "quick":
         # a seed-dependent stride through all single placements
-        k = min(n, 2500)
+        k = min(n, QUICK_CAP)
         off = seed % max(1, n)
         j = (off + i * max(1, n // k)) % n
         bi, opname, where, at = rows[j]
